@@ -1416,6 +1416,14 @@ impl World {
     }
 }
 
+#[cfg(feature = "verif-hooks")]
+impl World {
+    /// Runs a script of set operations on the crate's internal bit set and returns one line per operation.
+    pub fn verif_bitset_script(script: &str) -> String {
+        crate::bit_set::verif_script(script)
+    }
+}
+
 #[cfg(test)]
 mod tests {
     use alloc::rc::Rc;
